@@ -240,11 +240,11 @@ def install_wrapper_models():
         v = unbox(a[0])
         return v.clone(I) if isinstance(v, ItemTokens) else v
 
-    @model(r"^<syn::DeriveInput as quote::ToTokens>::to_token_stream$")
+    @model(r"^<syn::DeriveInput as quote::ToTokens>::(to_token_stream|into_token_stream)$")
     def di_to_tokens(I, a, n):
         return Opaque("TokenStream2", copy.deepcopy(unbox(a[0])))
 
-    @model(r"^<proc_macro::TokenStream as std::convert::From<proc_macro2::TokenStream>>::from$|^<proc_macro::TokenStream as std::convert::From>::from$")
+    @model(r"^<proc_macro::TokenStream as std::convert::From<proc_macro2::TokenStream>>::from$|^<proc_macro::TokenStream as std::convert::From>::from$|^<proc_macro2::TokenStream as std::convert::Into<proc_macro::TokenStream>>::into$|^<proc_macro2::TokenStream as std::convert::Into>::into$")
     def ts_from_ts2(I, a, n):
         return a[0]
     new = MODELS[n0:]
